@@ -481,9 +481,6 @@ theorem heartbeat_post (cfg : Cfg) (st : AbsState) (hinv : Inv st) (d : Hb) (hwf
 
 /-! ## the reported info, field by field -/
 
-/-- the bytes of an ASCII string literal (for writing keys and values readably) -/
-def ascii (x : String) : Bytes := x.toList.map fun c => UInt8.ofNat c.toNat
-
 /-- how a reported value is read into a struct field of a kind, written out from the property text:
 int (kind 0) by `strconv.Atoi`, bool (kind 1) from `1/true/0/false`, string (kind 2) the bytes themselves;
 an absent key gives the zero value -/
